@@ -143,8 +143,8 @@ index_mutations(const std::string& text)
   return out;
 }
 
-// every integer-valued "key := <n>" line with the value replaced by 0, -1 and 1 (counts that the storage behind them cannot
-// hold, or that no longer match the lists that follow)
+// every integer-valued "key := <n>" line with the value replaced by 0, -1, 1, 2n and n+1 (counts that the storage behind them
+// cannot hold, that no longer match the lists that follow, or that exceed what the scanner / the data file has)
 std::vector<std::pair<std::string, long>>
 number_mutations(const std::string& text)
 {
@@ -168,9 +168,13 @@ number_mutations(const std::string& text)
           while (c < eol && (text[c] == ' ' || text[c] == '\r'))
             ++c;
           if (b > a && c == eol)
-            for (const char* r : { "0", "-1", "1" })
-              if (text.substr(a, b - a) != r)
-                out.push_back(std::make_pair(text.substr(0, a) + r + text.substr(b), (long)a));
+            {
+              const long n = atol(text.substr(a, b - a).c_str());
+              const std::string twice = std::to_string(2 * n), next = std::to_string(n + 1);
+              for (const std::string& r : { std::string("0"), std::string("-1"), std::string("1"), twice, next })
+                if (text.substr(a, b - a) != r)
+                  out.push_back(std::make_pair(text.substr(0, a) + r + text.substr(b), (long)a));
+            }
         }
       pos = eol + 1;
     }
